@@ -111,8 +111,16 @@ CaseResult run_dynamic(const RunCtx &ctx, TapeReader &t, unsigned size_hint) {
     // ---------------------------------------------------------------- bulk load
     std::vector<std::pair<K, uint32_t>> bulk; // (key, value id), sorted, repeated keys allowed (first wins)
     uint32_t next_id = 1;
-    unsigned bulk_kind = (unsigned) t.below(4); // 0 = empty container, 1 = empty range, 2 = some keys, 3 = most keys
-    if (bulk_kind >= 2) {
+    unsigned bulk_kind = (unsigned) t.below(5); // 0 = empty container, 1 = empty range, 2 = some keys, 3 = most keys, 4 = base^L + d keys
+    if (bulk_kind == 4) { // level-capacity edge: exactly base^L - 1, base^L or base^L + 1 distinct keys (if the universe has that many)
+        unsigned Lmax = 1;
+        while (((size_t) 1 << (lg * (Lmax + 1))) + 1 <= U && lg * (Lmax + 1) < 20) ++Lmax;
+        unsigned L = 1 + (unsigned) t.below(Lmax);
+        size_t want = ((size_t) 1 << (lg * L)) + t.below(3) - 1;
+        want = std::max<size_t>(1, std::min(want, U));
+        size_t off = t.below(U - want + 1);
+        for (size_t i = 0; i < want; ++i) bulk.emplace_back(uni[off + i], next_id++);
+    } else if (bulk_kind >= 2) {
         SplitMix pr(t.bits(64));
         unsigned keep = bulk_kind == 2 ? 1 + (unsigned) t.below(8) : 1;
         unsigned rep_every = 1 + (unsigned) t.below(6);
@@ -182,7 +190,7 @@ CaseResult run_dynamic(const RunCtx &ctx, TapeReader &t, unsigned size_hint) {
         std::ostringstream d;
         d << "DynamicPGMIndex<" << type_name<K>() << "," << Val<V>::name() << ",PGMIndex<" << PGM::epsilon_value << ">> base=" << base << " buffer_level=" << buffer_level
           << " index_level=" << index_level << " universe=" << U << " keys [" << key_str(uni.front()) << ".." << key_str(uni.back()) << "] bulk=" << bulk.size() << " ("
-          << (bulk_kind == 0 ? "default ctor" : bulk_kind == 1 ? "empty range" : "sorted pairs") << ") ops=" << ops.size() << "\n";
+          << (bulk_kind == 0 ? "default ctor" : bulk_kind == 1 ? "empty range" : bulk_kind == 4 ? "base^L+-1 pairs" : "sorted pairs") << ") ops=" << ops.size() << "\n";
         d << "universe recipe: " << meta.recipe << "\n";
         d << "ops:";
         for (size_t i = 0; i < ops.size() && i < 60; ++i) {
@@ -220,7 +228,7 @@ CaseResult run_dynamic(const RunCtx &ctx, TapeReader &t, unsigned size_hint) {
     char lbl[64];
     snprintf(lbl, sizeof lbl, "base_%u", base);
     res.label(base == 2 ? "base_2" : base == 4 ? "base_4" : base == 8 ? "base_8" : base == 16 ? "base_16" : base == 32 ? "base_32" : base == 64 ? "base_64" : "base_128");
-    res.label(bulk_kind == 0 ? "ctor_default" : bulk_kind == 1 ? "ctor_empty_range" : "ctor_bulk_load");
+    res.label(bulk_kind == 0 ? "ctor_default" : bulk_kind == 1 ? "ctor_empty_range" : bulk_kind == 4 ? "ctor_bulk_load_capacity_edge" : "ctor_bulk_load");
     res.label(index_level == 0 ? "index_level_default" : "index_level_low");
 
     uint64_t n_updates = 0, n_checks = 0;
